@@ -383,6 +383,31 @@ def n_states(prog, n_photons):
     return math.comb(d + ph - 1, ph)
 
 
+def cap_herald_photons(prog, cap=15000):
+    """Herald photons are part of the program, not of the input, so fit_photons cannot reduce them: where the heralds
+    alone make the exact distribution larger than `cap` full states, herald photon numbers are lowered (innermost and
+    last first) until it fits. Returns a new program; a cost bound by construction, nothing is filtered."""
+    import copy
+    if n_states(prog, 0) <= cap:
+        return prog
+    prog = copy.deepcopy(prog)
+    sites = []
+
+    def walk(p):
+        for op in p["ops"]:
+            if op[0] == "herald" and op[1] > 0:
+                sites.append(op)
+            elif op[0] in ("add", "plus"):
+                walk(op[1])
+    walk(prog)
+    while sites and n_states(prog, 0) > cap:
+        op = sites[-1]
+        op[1] -= 1
+        if op[1] == 0:
+            sites.pop()
+    return prog
+
+
 def fit_photons(prog, wanted, cap=15000):
     """Largest photon number <= wanted keeping the exact distribution small."""
     n = wanted
